@@ -34,7 +34,7 @@ func replayFrame(kind string, f map[string]string) (string, bool) {
 		for _, s := range strings.Split(f["sizes"], ",") {
 			sizes = append(sizes, atoi(s))
 		}
-		c := &crCase{data: f["data"], opts: f["opts"], sizes: sizes, frag: atoi(f["frag"]), fault: atoi(f["fault"])}
+		c := &crCase{data: f["data"], opts: f["opts"], sizes: sizes, frag: atoi(f["frag"]), fault: atoi(f["fault"]), once: f["once"] == "1"}
 		return runCR(c), true
 	}
 	return "", false
@@ -252,6 +252,7 @@ func dataSpecFor(r *rng, n int) string {
 
 func compWS(o *out, seed uint64, tier string) {
 	r := newRng(seed, "ws")
+	defer compLegBig(o, tier)
 	mult := 1
 	if tier == "thorough" {
 		mult = 8
@@ -379,6 +380,22 @@ func compWS(o *out, seed uint64, tier string) {
 			ops = append(ops, alpha[r.intn(len(alpha))])
 		}
 		emit(&wsCase{ops: ops, wf: false, rdconc: 1}, "lifecycle-random")
+	}
+	// 4b. legacy frames with a flushed short block whose length equals the stored size of the next
+	//     block: the Reader's Linux-kernel-trailer rule (a size word equal to the bytes decoded so
+	//     far ends the stream) meets a real block there (the legacy round-trip theorem needs the
+	//     side condition legacy_unambiguous exactly for this; finding F28)
+	for i := 0; i < 3*mult; i++ {
+		m := 20 + r.intn(1500)
+		b := genData(3, r.intn(1000), m) // incompressible
+		z := make([]byte, lz4.CompressBlockBound(m))
+		k, _ := lz4.CompressBlock(b, z, nil)
+		if k <= 0 {
+			continue
+		}
+		a := genData(r.intn(4), r.intn(1000), k)
+		ops := []string{"A:bs=4,leg=1", "W:h:" + hx(a), "F", "W:h:" + hx(b), "C"}
+		emit(&wsCase{ops: ops, wf: true, rdconc: 1 + r.intn(2)}, "legacy-flush-size-word-equals-running-total")
 	}
 	// 4a. legacy frames written concurrently with a failing sink: nothing follows the blocks, so
 	//     only the pipeline's own error report can surface the failure
@@ -519,7 +536,14 @@ func compRS(o *out, seed uint64, tier string) {
 			continue
 		}
 		if x.o.leg == 1 {
-			continue // legacy: cuts on a block boundary are legitimate ends; examined below
+			// legacy: a cut on a block boundary is a legitimate end (here: right after the magic, the
+			// frames have one block); every other cut must be reported
+			for k := 1; k < len(x.f); k++ {
+				if k != 4 {
+					emit(&rsCase{in: x.f[:k], ops: readOps(), frag: 0, conc: 1 + 3*(k%2)}, "trunc", x.data, "trunc-legacy-every-prefix")
+				}
+			}
+			continue
 		}
 		for k := 1; k < len(x.f); k++ {
 			emit(&rsCase{in: x.f[:k], ops: readOps(), frag: 0, conc: 1 + 3*(k%2)}, "trunc", x.data, "trunc-every-prefix")
@@ -534,6 +558,33 @@ func compRS(o *out, seed uint64, tier string) {
 			m := append([]byte{}, x.f...)
 			m[k] ^= 1 << uint(r.intn(8))
 			emit(&rsCase{in: m, ops: readOps(), frag: 0, conc: 1 + 3*(k%2)}, "mut", nil, "bitflip")
+		}
+	}
+	// a foreign word (legacy magic, frame magic, skippable magic, a huge size) inserted in front of
+	// every block-size word and in front of the end mark of small modern frames
+	for _, x := range frames {
+		if len(x.f) > 400 || x.o.leg == 1 {
+			continue
+		}
+		off := 7
+		if x.o.size >= 0 {
+			off += 8
+		}
+		for off+4 <= len(x.f) {
+			for _, w := range []uint32{0x184C2102, 0x184D2204, 0x184D2A50, 0x80000000, 0xFFFFFFFF} {
+				m := append([]byte{}, x.f[:off]...)
+				m = binary.LittleEndian.AppendUint32(m, w)
+				m = append(m, x.f[off:]...)
+				emit(&rsCase{in: m, ops: readOps(), frag: 0, conc: 1 + 3*(off%2)}, "mut", nil, "foreign-word-at-block-position")
+			}
+			w := binary.LittleEndian.Uint32(x.f[off:])
+			if w == 0 {
+				break
+			}
+			off += 4 + int(w&0x7fffffff)
+			if x.o.bc == 1 {
+				off += 4
+			}
 		}
 	}
 	for i := 0; i < 60*mult; i++ {
@@ -563,10 +614,17 @@ func compRS(o *out, seed uint64, tier string) {
 	}
 	// a full-window (64 KiB) block followed by a block whose first match reaches back almost 65535
 	// bytes after a very short literal run; read with small buffers, large buffers and WriteTo
-	for i := 0; i < 6*mult; i++ {
-		first := r.bytes(65536)
+	for i := 0; i < 10*mult; i++ {
+		// first block: exactly the window; larger than the window (256 KiB block size: the Reader
+		// must keep the LAST 64 KiB of it); or tiny (1..3 bytes: shorter than a match)
+		firstLen := []int{65536, 65536, 65536, 70000, 150000, 262144, 1, 2, 3, 3}[i%10]
+		bsCode := 4
+		if firstLen > 65536 {
+			bsCode = 5
+		}
+		first := r.bytes(firstLen)
 		var blocks []gblock
-		if r.intn(2) == 0 {
+		if r.intn(2) == 0 || firstLen != 65536 {
 			blocks = append(blocks, gblock{stored: first, raw: true, dec: first})
 		} else {
 			// compressed: 16 literals then one long match of the remaining bytes at offset 16
@@ -584,7 +642,7 @@ func compRS(o *out, seed uint64, tier string) {
 			dec = append(dec, lits...)
 			off := 65535 - r.intn(60)
 			if off > len(content)+len(dec) {
-				off = len(content) + len(dec)
+				off = len(content) + len(dec) // (tiny first block: reaches the very first byte of the stream)
 			}
 			ml := 4 + r.intn(30)
 			for j := 0; j < ml; j++ {
@@ -602,9 +660,15 @@ func compRS(o *out, seed uint64, tier string) {
 		dec = append(dec, last...)
 		blocks = append(blocks, gblock{stored: encodeSeqs(seqs, last, true), dec: dec})
 		content = append(content, dec...)
-		fr := buildFrame(false, r.intn(2) == 1, true, 4, -1, blocks, false)
+		fr := buildFrame(false, r.intn(2) == 1, true, bsCode, -1, blocks, false)
+		label := "dependent-full-window-block"
+		if firstLen > 65536 {
+			label = "dependent-after-block-larger-than-window"
+		} else if firstLen < 4 {
+			label = "dependent-after-tiny-block"
+		}
 		for _, ops := range [][]string{{"RA:1000"}, {"RA:4096"}, {"RA:65535"}, {"RM"}, {"WT"}, {"RA:65536"}} {
-			emit(&rsCase{in: fr, ops: ops, frag: 0, conc: 1}, "valid", content, "dependent-full-window-block")
+			emit(&rsCase{in: fr, ops: ops, frag: 0, conc: 1}, "valid", content, label)
 		}
 	}
 	hostile := func(words ...uint32) []byte {
@@ -640,6 +704,15 @@ func compRS(o *out, seed uint64, tier string) {
 		}
 		emit(&rsCase{in: in, ops: []string{"RA:4096"}, conc: 1}, "mut", nil, "legacy-magic-repeated")
 	}
+	for _, n := range []int{1, 2, 1000, 450000} { // runs of empty skippable frames before a frame (a loop, not a recursion)
+		var in []byte
+		for i := 0; i < n; i++ {
+			in = binary.LittleEndian.AppendUint32(in, 0x184D2A50+uint32(i%16))
+			in = binary.LittleEndian.AppendUint32(in, 0)
+		}
+		in = append(in, frames[0].f...)
+		emit(&rsCase{in: in, ops: []string{"RA:4096"}, conc: 1 + 3*(n%2)}, "valid", frames[0].data, "skippable-repeated")
+	}
 	for i := 0; i < 120*mult; i++ {
 		emit(&rsCase{in: r.bytes(r.intn(64)), ops: readOps(), conc: 1 + 3*(i%2)}, "mut", nil, "random-bytes")
 	}
@@ -656,6 +729,21 @@ func compRS(o *out, seed uint64, tier string) {
 		for k := 1; k <= probe.calls && k <= 40; k++ {
 			emit(&rsCase{in: x.f, ops: []string{"WT"}, frag: 0, fault: k, conc: 1}, "fault", x.data, "source-fault")
 			emit(&rsCase{in: x.f, ops: []string{"RA:4096"}, frag: 0, fault: k, conc: 1 + 3*(k%2)}, "fault", x.data, "source-fault")
+		}
+	}
+	// scripted reuse: a Reader that has read a whole frame is Reset onto another frame (with and
+	// without concurrency, with and without a declared content size) and must behave as a new one:
+	// content checksum state, declared size, block buffers
+	for i := 0; i < 12*mult; i++ {
+		a, b := frames[r.intn(len(frames))], frames[r.intn(len(frames))]
+		if len(a.f) > 200000 || len(b.f) > 200000 || a.o.leg == 1 || b.o.leg == 1 {
+			continue
+		}
+		rs := "RS:h:" + hx(b.f)
+		for _, ops := range [][]string{{"A:conc=2", "WT", rs, "WT"}, {"WT", "S", rs, "S", "WT", "S"}, {"A:conc=4", "RA:70000", rs, "RA:70000"}, {"RA:100", "S", rs, "RA:4096", "S"}} {
+			// (oracle of the class "valid": after the last Reset the session delivers exactly the
+			// second frame's content and ends cleanly)
+			emit(&rsCase{in: a.f, ops: ops, conc: 1}, "valid", b.data, "reuse-after-complete-frame")
 		}
 	}
 	// lifecycle: all sequences up to length L over the Reader's operations (C17)
@@ -756,6 +844,16 @@ func compCR(o *out, seed uint64, tier string) {
 			c2.frag = 0
 			o.emit("cr", c2.fields()+" iout=-", iso("cr", c2.fields(), 30*time.Second), true)
 			o.count("source-fault")
+		}
+		if i%8 == 4 {
+			// a source that fragments its reads and fails in the MIDDLE of a block, for good or once
+			// (a transient failure): the error must be passed through by the Read that meets it
+			c2 := *c
+			c2.frag = []int{4, 1, 2}[r.intn(3)]
+			c2.fault = 2 + r.intn(12)
+			c2.once = r.intn(2) == 0
+			o.emit("cr", c2.fields()+" iout=-", iso("cr", c2.fields(), 30*time.Second), true)
+			o.count("source-fault-mid-block")
 		}
 	}
 }
